@@ -45,8 +45,12 @@ def canon_value(r):
         v = r.value
         if isinstance(v, complex):
             return {'err': 'internal:complex'}
+        if not any(exps_of(r.units)):
+            return {'err': 'internal:unitless-Quantity'}     # a dimensionless result must be a plain number
         return {'val': float(v), 'dim': exps_of(r.units)}
     if isinstance(r, ArrayQuantity):
+        if not any(exps_of(r._units)):
+            return {'err': 'internal:unitless-ArrayQuantity'}
         return {'arr': [float(x) for x in np.asarray(r).ravel()], 'dim': exps_of(r._units)}
     if isinstance(r, (bool, np.bool_)):
         return {'bool': bool(r)}
